@@ -93,11 +93,14 @@ FnV(L) ==
 
 \* ---- SI printing ----------------------------------------------------------
 SiV(L) ==
-  LET m == L.arg.m
-      e == L.arg.e
-      ok == IF L.a = "PrettyNumber" THEN S!IsCount(m, e) ELSE S!InRange(m, e)
-  IN IF ~ok THEN V("bad-input", "", <<>>)
-     ELSE V(S!Verdict(m, e, L.obs), S!Class(m, e), S!RefObs(m, e, IF S!BandIdx(m, e) > 12 THEN 12 ELSE S!BandIdx(m, e)))
+  IF L.a = "PrettyNumber"
+  THEN \* arg.limbs: the count a * 10^18 + b * 10^9 + c
+       IF ~S!ValidCount(L.arg.limbs) THEN V("bad-input", "", <<>>)
+       ELSE LET x == S!Lead(L.arg.limbs) IN V(S!Verdict(x, L.obs), S!Class(x), IF x.m = 0 THEN <<>> ELSE S!RefObs(x, S!OwnBand(x)))
+  ELSE \* arg = [neg, m, e]: the double nearest to (-1)^neg * m * 10^e
+       LET x == S!Inp(L.arg.neg, L.arg.m, L.arg.e) IN
+       IF ~(x.m = 0 \/ S!InRange(x.m, x.e)) THEN V("bad-input", "", <<>>)
+       ELSE V(S!Verdict(x, L.obs), S!Class(x), IF x.m = 0 THEN <<>> ELSE S!RefObs(x, S!OwnBand(x)))
 
 Verdict(L) ==
   LET v == IF "unexpected_exception" \in DOMAIN L.obs THEN V("unexpected_exception", "", <<>>)
